@@ -51,6 +51,10 @@ claim('C14', 'Mixed, mostly proved: all value-level clauses of insert_block and 
       'SyntheticBranch.replace_jump_targets are discharged for all inputs (exact re-routing, order of remaining successors, positional replacement, frame); '
       'region predecessors and edit sequences are bounded.', TB + '; R3 (predecessor with a declared back edge) is a recorded finding, proved on its complement',
       PROOF_PLUS_BOUNDED, '5.C14')
+claim('C15', 'Bounded + finite: registry coverage and a per-class field round trip are decided completely over the block classes (E3); dictionary/YAML round trips and '
+      'write-read-write-read chains are executed on every enumerated closed CFG at every stage prefix and on bytecode graphs (bounded). to_dict/from_dict are tier B.',
+      'yaml trusted; no deductive contract on SCFGIO (work-list over a heterogeneous hierarchy); R4b (PythonASTBlock not serialisable) is a recorded finding',
+      'finite case split over block classes (E3) + round-trip contract evaluated on the enumerated scope', '5.C15')
 claim('C16', 'Bounded: list(scfg) and the region-concealing view of every level of every enumerated result compared with the hierarchy '
       '(exactly once, head first, after a predecessor); proved: exclude_blocks (generator) and the queries it uses.', TB,
       'property-level contract checked on the enumerated scope; supporting function contracts proved by pyvc/z3', '5.C16')
